@@ -124,7 +124,8 @@ def _registry_form(rng):
                     f = rng.choice(files)
                     q = rng.choice(["'", '"'])
                     sp = rng.choice(["", " "])
-                    cells[key] = (col, f"pulldata({sp}{q}{f}{q}, 'a', 'b', ${{q0}}) = 1" if col != "calculation" else f"pulldata({q}{f}{q}, 'a', 'b', ${{q0}})", f)
+                    sp0 = rng.choice(["", "", " "])      # white space before the parenthesis: the same call
+                    cells[key] = (col, f"pulldata{sp0}({sp}{q}{f}{q}, 'a', 'b', ${{q0}}) = 1" if col != "calculation" else f"pulldata{sp0}({q}{f}{q}, 'a', 'b', ${{q0}})", f)
             if "calculate" in cells:
                 row["type"] = "calculate"
                 row.pop("label")
@@ -564,8 +565,9 @@ def gen_oracle_form(rng):
             sel = None
         elif variant == "pull":
             f = rng.choice(["fruits", "prices"])
-            row = {"type": "calculate", "name": nm, "calculation": f"pulldata('{f}', 'a', 'b', ${{q0}})"}
-            add_source(f, f"jr://file-csv/{f}.csv")
+            row = {"type": "calculate", "name": nm, "calculation": rng.choice([f"pulldata('{f}', 'a', 'b', ${{q0}})", f"pulldata ('{f}', 'a', 'b', ${{q0}})", f'pulldata( "{f}" , "a", "b", ${{q0}})',
+                                                                                f"pulldata('{f}', 'a', 'b', ${{q0}}) + pulldata(${{q0}}, 'a', 'b', 'c')"])}
+            add_source(f, f"jr://file-csv/{f}.csv")      # a call whose first argument is an expression names no file: no instance for it
             sel = None
         elif variant == "last":
             row = {"type": "text", "name": nm, "label": "L"}
